@@ -13,9 +13,12 @@ TECHNIQUE = ("Lean 4 theorems over an executable transcription of share_placemen
              "differential correspondence on int ids < 8 (exact returned mapping, plus every internal _calculate_mappings / "
              "_distribute_homeless_shares call observed inside real runs, plus the graph builders); monitor = the three "
              "clauses of the statement with a brute-force / matching optimum")
-LEVEL_TEXT = ("placement_total, readonly_only_existing and spread_maximal are stated over the model of the repaired code; the "
-              "as-is model carries machine-checked counterexamples for the two defects found; the model is tied to "
-              "the code by exact comparison on exhaustive small scopes")
+LEVEL_TEXT = ("over the model of the repaired code (fixes/C07-indexedshares.diff + fixes/C07-dropped-peer.diff): placement_total, "
+              "placement_returns and readonly_only_existing proved in Lean for all inputs; spread_maximal proved per phase only "
+              "(each _calculate_mappings phase ends with a maximum matching of its network, via the C08 theory) - the "
+              "three-phase composition to the global optimum is checked by the monitor, not proved; the model of the "
+              "repository's code carries machine-checked counterexamples for both defects; the model is tied to the code by "
+              "exact comparison on exhaustive small scopes")
 LEVEL_NOTE = ("Lean kernel + standard axioms; model hand-written, tied by correspondence on ids < 8 where CPython's set order is "
               "ascending; larger layouts and byte-string ids are checked at property level only")
 RULE = ("a case is one call of share_placement (or one observed internal helper call, or one direct helper call) on a generated "
@@ -122,6 +125,9 @@ def brute_optimum_spread(W, R, S, ex):
     return best
 
 
+_CROSS = [0]
+
+
 def clauses(W, R, S, ex, res):
     """evaluate the three clauses of the statement on a returned placement; returns list of (signature, text)"""
     bad = []
@@ -133,7 +139,9 @@ def clauses(W, R, S, ex, res):
         bad.append((SIG_RO, "a read-only server is assigned a share it does not hold"))
     hap = len(set(res.values()))
     opt = optimum_spread(W, R, S, ex)
-    if len(S) <= 4 and len(W) + len(R) <= 4:
+    _CROSS[0] += 1
+    if (len(S) <= 3 and len(W) + len(R) <= 3) or (len(S) <= 4 and len(W) + len(R) <= 4 and _CROSS[0] % 40 == 0):
+        # the matching-based optimum is itself cross-checked against exhaustive enumeration of all placements
         b = brute_optimum_spread(W, R, S, ex)
         if b != opt:
             raise AssertionError("reference optimum disagrees with brute force: %r" % ((W, R, S, ex, opt, b),))
@@ -269,10 +277,17 @@ def run(ctx):
             layouts += list(exhaustive_layouts(4, 4))
             layouts += list(exhaustive_layouts(3, 5, pairs={(1, 5), (2, 5), (3, 5)}))
             ctx.exhaustive = True
+            ctx.note("exhaustive: <=4 servers x <=4 shares and <=3 servers x 5 shares (every read-only subset, every relation); "
+                     "4 servers x 5 shares (15 * 2^20 layouts) is sampled")
+            for _ in range(60000):
+                romask = rng.randrange(15); bits = rng.getrandbits(20)
+                W = [p for p in range(4) if not romask >> p & 1]; R = [p for p in range(4) if romask >> p & 1]
+                ex = [(p, [x for x in range(5) if bits >> (p * 5 + x) & 1]) for p in range(4)]
+                layouts.append((W, R, list(range(5)), [(p, sh) for p, sh in ex if sh]))
         else:
             layouts += list(exhaustive_layouts(3, 3))
             layouts += list(exhaustive_layouts(2, 5, pairs={(1, 4), (2, 4), (1, 5), (2, 5)}))
-        for _ in range(ctx.budget(6000, 150000)):
+        for _ in range(ctx.budget(6000, 100000)):
             W, R, S, ex = random_layout(rng, 8, 8, ids="perm8" if rng.random() < 0.5 else None)
             layouts.append((W, R, S, ex))
 
@@ -370,7 +385,7 @@ def run(ctx):
     ctx.compare("graph builders and _compute_maximum_graph vs model of the repaired code", b_descr, b_impl, ctx.model(b_lines))
 
     # ---- C. property level: larger layouts (int ids beyond the exact range, 20-byte ids)
-    for _ in range(ctx.budget(2500, 60000)):
+    for _ in range(ctx.budget(2500, 40000)):
         W, R, S, ex = random_layout(rng, 20, 30)
         kind = "int"
         if rng.random() < 0.5:
